@@ -1,3 +1,4 @@
+import os, subprocess, sys
 from tools import vlib
 
 RULE = ("every fixture / corpus / generated program inside the modelled syntax is linted together with a twin in which a random subset of its "
@@ -29,9 +30,11 @@ def body(ctx):
 
 
 def check(ctx):
+    # the table of special spellings is regenerated from /repo's source before the theorems are built
+    subprocess.run([sys.executable, os.path.join(vlib.VERIF, "tools", "translate.py")], check=True)
     ctx.assumptions = [
         "special names (self, _G, shared, type, typeof, Roact, React, game, script, workspace, _, _ENV, arg, pairs, ipairs, next; field names ref, key, children) and spellings of the library's class table are never renamed",
         "the full renaming-simulation theorem over the scope model is pending; the Lean file proves the lookup/declare commutation lemmas it rests on",
     ]
     return vlib.standard_check(ctx, ["Selene.Props.C14"], body,
-                               trusted=vlib.BASE_TRUST + ["harness/src/twin.rs (renamer: uses the AST dump to find variable-position tokens)"], rule=RULE)
+                               trusted=vlib.BASE_TRUST + ["harness/src/twin.rs (renamer: uses the AST dump to find variable-position tokens)", "tools/translate.py (regex extraction of the string literals lints compare names with, regenerated on every run)"], rule=RULE)
